@@ -14,6 +14,7 @@ import (
 	"math/rand/v2"
 	"sort"
 	"strings"
+	"sync"
 )
 
 // A Violation is a failed invariant. Invariant is a stable identifier (used
@@ -78,8 +79,14 @@ type Env struct {
 	step      int
 
 	Nontrivial bool
-	violation  *Violation
-	infra      string
+
+	// mu guards the counters, the trace and the step number: handler
+	// goroutines of the system under test call into them through the recording
+	// wrappers (the single-P execution model makes this safe already; the lock
+	// keeps the race-detector flavour quiet about the harness)
+	mu        sync.Mutex
+	violation *Violation
+	infra     string
 
 	cleanup []func()
 }
@@ -190,13 +197,24 @@ func (e *Env) Perm(n int) []int {
 func (e *Env) Tape() []uint32 { return e.tape }
 
 // Step advances the global event sequence number and returns it.
-func (e *Env) Step() int { e.step++; return e.step }
+func (e *Env) Step() int {
+	e.mu.Lock()
+	defer e.mu.Unlock()
+	e.step++
+	return e.step
+}
 
 // Now returns the current global event sequence number.
-func (e *Env) Seq() int { return e.step }
+func (e *Env) Seq() int {
+	e.mu.Lock()
+	defer e.mu.Unlock()
+	return e.step
+}
 
 // Logf appends to the event trace. It never draws and never reads a clock.
 func (e *Env) Logf(format string, args ...any) {
+	e.mu.Lock()
+	defer e.mu.Unlock()
 	var s string
 	if e.Verbose || e.traceN < 400 {
 		s = fmt.Sprintf(format, args...)
@@ -216,6 +234,8 @@ func (e *Env) Logf(format string, args ...any) {
 // Shape folds tokens into the abstract-trace hash used to count distinct
 // executions (event kinds, depth buckets, regimes, fault kinds — not ids).
 func (e *Env) Shape(tokens ...string) {
+	e.mu.Lock()
+	defer e.mu.Unlock()
 	for _, t := range tokens {
 		for i := 0; i < len(t); i++ {
 			e.shape = (e.shape ^ uint64(t[i])) * 1099511628211
@@ -225,10 +245,19 @@ func (e *Env) Shape(tokens ...string) {
 }
 
 // Probe counts that a rare condition was reached.
-func (e *Env) Probe(name string) { e.Probes[name]++ }
+func (e *Env) Probe(name string) {
+	e.mu.Lock()
+	e.Probes[name]++
+	e.mu.Unlock()
+}
 
 // Fault counts that a fault actually fired.
-func (e *Env) Fault(kind string) { e.Faults[kind]++; e.Shape("F:" + kind) }
+func (e *Env) Fault(kind string) {
+	e.mu.Lock()
+	e.Faults[kind]++
+	e.mu.Unlock()
+	e.Shape("F:" + kind)
+}
 
 // Violationf records a failed invariant and ends the run.
 func (e *Env) Violationf(invariant, sig, format string, args ...any) {
